@@ -47,7 +47,21 @@ C04_ASSUME = ["model family: harness c04Model (enum with base, record with optio
               "primitive names, map key, enum base, vector length and both array dimension lengths symbolic",
               "encoding/json modelled structurally (json_model.go) calling the interpreted MarshalJSON methods; byte-for-byte validated by native replay on every sampled path"]
 
+CC = "cc_kernels"
+
 PARTS = {
+    "C01": [
+        (CC, "c01_cc_kernels", dict()),
+    ],
+    "C16": [
+        (CC, "c16_cc_truncation", dict()),
+    ],
+    "C17": [
+        (CC, "c17_cc_blocks", dict()),
+    ],
+    "C15": [
+        (CC, "c15_cc_header", dict()),
+    ],
     "C04": [
         (G, "gosym_part", dict(name="c04_neutral", entry="internal/zzverif.C04Neutral", args_quick=(1,), args_thorough=(0,),
                                required_sites=("neutral-edit-keeps-schema", "no-comment-in-schema", "no-computed-field-in-schema", "no-position-in-schema"),
@@ -139,6 +153,25 @@ NOTES = ("Every claim is bounded: 'holds' means unsat within the stated bound. E
 NOT_APPLICABLE = {}
 
 CLAIMS = {
+    "C01": dict(engine="llsym+pysym+gosym",
+                text="Bounded symbolic execution of the real runtime kernels: (llsym) clang-14 IR of coded_stream.h executed symbolically from an arbitrary valid stream state "
+                     "with symbolic values: emitted bytes equal the reference wire codec (docs/reference/binary.md), reading them back yields the value and consumes exactly those bytes, "
+                     "class invariant preserved, no out-of-object access; buffer sizes 8/12 (quick) up to 32 (thorough). Composition (which kernel is used for which type) is C14.",
+                note="Generated C++ cannot be compiled in this sandbox (no xtensor/date/nlohmann/HDF5), so C++ is covered at kernel level (llsym) + emitter level (C14 gosym) only; "
+                     "production buffer size 65536 is covered only through the size-independent inductive step; istream::read/ostream::write follow the libstdc++ contract."),
+    "C16": dict(engine="llsym+pysym",
+                text="Bounded symbolic execution (llsym) of every CodedInputStream read primitive on the first c bytes of a valid encoding with c symbolic and the reader at an arbitrary "
+                     "buffer position (including exactly at a refill boundary): the outcome is EndOfStreamException/runtime_error, never a normal return, never a load outside the filled window. "
+                     "Four genuine defects found this way were repaired (fix: commit a567eab).",
+                note="Buffer sizes 8-32; values <= 10 bytes; istream::read contract stub (short count only at end of input); ReadBlock/ReadMap under truncation not covered by llsym."),
+    "C17": dict(engine="llsym+pysym",
+                text="Bounded symbolic execution (llsym, -O0 IR behind a stub yardl.h) of ReadBlocksIntoVector/ReadBlock as a one-call inductive step against a reference block parser: "
+                     "arbitrary block partition (<= 4 items), destination capacity 1..4 and prior size, arbitrary reader state: delivered batch = next min(capacity, remaining) items, progress, end-of-stream flag.",
+                note="std::vector modelled through an intercepted resize; ReadMap (F5) not covered; single-byte block lengths."),
+    "C15": dict(engine="llsym+pysym",
+                text="Bounded symbolic execution (llsym) of ReadHeader with symbolic magic/version bytes and schema bytes: returns normally only for magic 'yardl' and version 1, "
+                     "returns the embedded schema verbatim, otherwise throws before consuming bytes beyond the header.",
+                note="std::string stubbed; the schema comparison itself lives in generated code (emitter-level check pending)."),
     "C04": dict(text="Bounded symbolic execution (gosym) of the real validation pipeline and schema writer (Validate, GetProtocolSchema, removeComments, json.go) on a "
                      "symbolic model family: wire-neutral decorations leave the schema text unchanged; every single wire-affecting edit changes it (lengths and dimensions as 64-bit symbolic values).",
                 note="One model family (stated in assumptions); the verbatim embedding of the schema string by each backend's emitter and the header writers are checked elsewhere "
